@@ -29,13 +29,20 @@ ROLES = {
 class R(object):
     """renderer state"""
 
-    def __init__(self, name="x", base=100):
+    FALSY = ("0", "0.0", "''", "()", "None", "False", "0j", "b''", "frozenset()", "range(0)", "[]", "{}")
+
+    def __init__(self, name="x", base=100, falsy=False):
         self.name = name
         self.v = base
         self.n = 0
+        self.falsy = falsy
 
     def val(self):
         self.v += 1
+        if self.falsy:
+            # distinguishable FALSY values (the log records type and repr): a lowering that tests a
+            # variable's value instead of its existence confuses "bound to something falsy" with "unbound"
+            return self.FALSY[(self.v - 1) % len(self.FALSY)]
         return self.v
 
 
@@ -58,12 +65,12 @@ def render_stmt_scope(node, ind, r):
     if role == "read":
         a("L(%d, 'r', %s)" % (i, x))
     elif role == "assign":
-        a("%s = %d" % (x, r.val()))
+        a("%s = %s" % (x, r.val()))
         a("L(%d, 'a', %s)" % (i, x))
     elif role == "assign_noread":
-        a("%s = %d" % (x, r.val()))
+        a("%s = %s" % (x, r.val()))
     elif role == "assign_nl":
-        a("%s = %d" % (x, r.val()))
+        a("%s = %s" % (x, r.val()))
         a("def cap%d():" % i)
         a("    nonlocal %s" % x)
         a("    %s += 1000" % x)
@@ -71,35 +78,35 @@ def render_stmt_scope(node, ind, r):
         a("L(%d, 'anl', %s)" % (i, x))
     elif role == "assign_read_before":
         a("L(%d, 'rb', %s)" % (i, x))
-        a("%s = %d" % (x, r.val()))
+        a("%s = %s" % (x, r.val()))
         a("L(%d, 'a', %s)" % (i, x))
     elif role == "aug":
         a("%s += 1000" % x)
         a("L(%d, 'g', %s)" % (i, x))
     elif role == "walrus":
-        a("L(%d, 'w', (%s := %d))" % (i, x, r.val()))
+        a("L(%s, 'w', (%s := %s))" % (i, x, r.val()))
         a("L(%d, 'w2', %s)" % (i, x))
     elif role == "walrus_nonlocal":
         a("nonlocal %s" % x)
-        a("L(%d, 'wn', (%s := %d))" % (i, x, r.val()))
+        a("L(%s, 'wn', (%s := %s))" % (i, x, r.val()))
         a("L(%d, 'wn2', %s)" % (i, x))
     elif role == "for":
-        a("for %s in [%d, %d]:" % (x, r.val(), r.val()))
+        a("for %s in [%s, %s]:" % (x, r.val(), r.val()))
         a("    L(%d, 'f', %s)" % (i, x))
         a("L(%d, 'fa', %s)" % (i, x))
     elif role == "for_nonlocal":
         a("nonlocal %s" % x)
-        a("for %s in [%d]:" % (x, r.val()))
+        a("for %s in [%s]:" % (x, r.val()))
         a("    L(%d, 'fn', %s)" % (i, x))
     elif role == "destructure":
-        a("(q%d, (%s, *r%d)) = (0, (%d, 1, 2))" % (i, x, i, r.val()))
+        a("(q%s, (%s, *r%s)) = (0, (%s, 1, 2))" % (i, x, i, r.val()))
         a("L(%d, 'ds', %s)" % (i, x))
     elif role == "withcomp":
-        a("%s = %d" % (x, r.val()))
+        a("%s = %s" % (x, r.val()))
         a("L(%d, 'wc', [%s + t for t in [1] if %s])" % (i, x, x))
     elif role == "global_assign":
         a("global %s" % x)
-        a("%s = %d" % (x, r.val()))
+        a("%s = %s" % (x, r.val()))
         a("L(%d, 'ga', %s)" % (i, x))
     elif role == "global_read":
         a("global %s" % x)
@@ -110,7 +117,7 @@ def render_stmt_scope(node, ind, r):
         a("L(%d, 'gg', %s)" % (i, x))
     elif role == "nonlocal_assign":
         a("nonlocal %s" % x)
-        a("%s = %d" % (x, r.val()))
+        a("%s = %s" % (x, r.val()))
         a("L(%d, 'na', %s)" % (i, x))
     elif role == "nonlocal_read":
         a("nonlocal %s" % x)
@@ -121,11 +128,11 @@ def render_stmt_scope(node, ind, r):
         a("L(%d, 'ng', %s)" % (i, x))
     elif role == "def":
         a("def %s():" % x)
-        a("    return %d" % r.val())
+        a("    return %s" % r.val())
         a("L(%d, 'd', %s())" % (i, x))
     elif role == "classbind":
         a("class %s:" % x)
-        a("    v = %d" % r.val())
+        a("    v = %s" % r.val())
         a("L(%d, 'c', %s.v)" % (i, x))
     elif role == "import":
         a("import math as %s" % x)
@@ -163,10 +170,10 @@ def render_expr_scope(node, r):
         parts.append("L(%d, 'r', %s)" % (i, x))
     if role == "walrus_in_comp":
         # a walrus inside a comprehension inside the lambda binds a variable of the LAMBDA
-        parts.append("[L(%d, 'wc', (%s := %d)) for wt%d in [0]]" % (i, x, r.val(), i))
+        parts.append("[L(%s, 'wc', (%s := %s)) for wt%s in [0]]" % (i, x, r.val(), i))
         parts.append("L(%d, 'wc2', %s)" % (i, x))
     if role == "walrus":
-        parts.append("L(%d, 'w', (%s := %d))" % (i, x, r.val()))
+        parts.append("L(%s, 'w', (%s := %s))" % (i, x, r.val()))
         parts.append("L(%d, 'w2', %s)" % (i, x))
     for ch in children:
         parts.append(expr_child(ch, r))
@@ -181,22 +188,22 @@ def expr_child(ch, r):
     body = render_expr_scope(ch, r)
     if kind == "lambda":
         if role == "param":
-            return "(lambda %s: %s)(%d)" % (x, body, r.val())
+            return "(lambda %s: %s)(%s)" % (x, body, r.val())
         if role == "param_default_same":
             return "(lambda %s=%s: %s)()" % (x, x, body)
         if role == "lam_kwonly_same":
             return "(lambda *, %s=%s: %s)()" % (x, x, body)
         if role == "lam_vararg":
-            return "(lambda *%s: %s)(%d)" % (x, body, r.val())
+            return "(lambda *%s: %s)(%s)" % (x, body, r.val())
         if role == "lam_kwarg":
-            return "(lambda **%s: %s)(k=%d)" % (x, body, r.val())
+            return "(lambda **%s: %s)(k=%s)" % (x, body, r.val())
         if role == "lam_kwonly":
-            return "(lambda *, %s=%d: %s)()" % (x, r.val(), body)
+            return "(lambda *, %s=%s: %s)()" % (x, r.val(), body)
         if role == "lam_posonly":
-            return "(lambda %s, /: %s)(%d)" % (x, body, r.val())
+            return "(lambda %s, /: %s)(%s)" % (x, body, r.val())
         return "(lambda: %s)()" % body
     t = x if role == "target" else ("(%s, u%d)" % (x, i) if role == "target_tuple" else "t%d" % i)
-    src = "[%d]" % r.val() if role != "target_tuple" else "[(%d, 0)]" % r.val()
+    src = "[%s]" % r.val() if role != "target_tuple" else "[(%s, 0)]" % r.val()
     if role == "iter_read":
         return "[%s for %s in [%s]]" % (body, t, x)
     if role == "cond_read":
@@ -210,14 +217,14 @@ def render_child(ch, ind, r):
     p = " " * ind
     L = []
     if kind == "func":
-        params = {"param": x, "param_nl": x, "param_default": "%s=%d" % (x, r.val()), "kwonly": "*, %s=%d" % (x, r.val()),
+        params = {"param": x, "param_nl": x, "param_default": "%s=%s" % (x, r.val()), "kwonly": "*, %s=%s" % (x, r.val()),
                   "vararg": "*%s" % x, "param_same": "%s=%s" % (x, x), "kwonly_same": "*, %s=%s" % (x, x)}.get(role, "")
         L.append("%sdef f%d(%s):" % (p, i, params))
         L += render_stmt_scope(ch, ind + 1, r)
         if role in ("param", "param_nl"):
-            L.append("%sf%d(%d)" % (p, i, r.val()))
+            L.append("%sf%s(%s)" % (p, i, r.val()))
         elif role == "vararg":
-            L.append("%sf%d(%d, %d)" % (p, i, r.val(), r.val()))
+            L.append("%sf%s(%s, %s)" % (p, i, r.val(), r.val()))
         else:
             L.append("%sf%d()" % (p, i))
     elif kind == "class":
@@ -228,10 +235,11 @@ def render_child(ch, ind, r):
     return L
 
 
-def render(tree, init=True, second=None):
-    """source of a whole program; `second` = (tree2) renders an independent tracked name y"""
+def render(tree, init=True, second=None, falsy=False):
+    """source of a whole program; `second` = (tree2) renders an independent tracked name y;
+    falsy: every value written is one of 12 distinguishable FALSY values"""
     node = number(tree)
-    r = R("x", 100)
+    r = R("x", 100, falsy)
     lines = (["x = 1"] if init else []) + render_stmt_scope(node, 0, r)
     if second is not None:
         node2 = number(second, [500])
